@@ -152,7 +152,6 @@ func main() {
 	r := ev.New("C03", "model_checking")
 	fx.Quiet()
 	w := fx.NewWorld(fx.Options{Seed: "c03", Rotations: 1})
-	defer w.Close()
 	l := envl.New(w)
 
 	if r.Replay != "" {
@@ -170,6 +169,7 @@ func main() {
 				evalCase(l, r, rv, c, ev.Unhex(c.Input), pts)
 			}
 		}
+		w.Close()
 		r.Finish()
 	}
 
@@ -244,5 +244,6 @@ func main() {
 	r.Set("plaintext_sizes", sizes)
 	r.Assume("Themis is replaced by the pure-Go stand-in /verif/shim/gothemis (AEAD assumption: any change to ciphertext, tag, nonce, context or key makes decryption fail)",
 		"alterations are single edits (thorough: pairs of numeric field edits) of values produced for plaintext sizes listed in plaintext_sizes")
+	w.Close()
 	r.Finish()
 }
